@@ -197,7 +197,7 @@ func appendSnapshotConstants(b []byte, s *slip.Scope) []byte {
 			form := slip.List{
 				slip.Symbol("defconstant"),
 				slip.Symbol(strings.Join([]string{c.Pkg.Name, c.String()}, "::")),
-				c.Value(),
+				ppValue(c.Value()),
 			}
 			if 0 < len(c.Doc) {
 				form = append(form, slip.String(c.Doc))
@@ -293,6 +293,10 @@ func appendSetq(b []byte, s *slip.Scope, vv *slip.VarVal) (out []byte) {
 func ppValue(v slip.Object) (pv slip.Object) {
 	pv = v
 	switch tv := v.(type) {
+	case slip.Symbol:
+		if 0 < len(tv) && tv[0] != ':' {
+			pv = slip.List{slip.Symbol("quote"), tv}
+		}
 	case slip.List:
 		if 0 < len(tv) {
 			pv = slip.List{slip.Symbol("quote"), tv}
